@@ -908,6 +908,7 @@ def real_residual(data, comps, B):
     def fake_minimize(residual, p, **kw):
         box['r'] = np.array(residual(p, **kw.get('kws', {})), dtype=float)
         box['kw'] = kw
+        box['params'] = p
         res = FakeMin()
         res.residual = box['r']
         res.params = p
@@ -919,6 +920,7 @@ def real_residual(data, comps, B):
         fitting.do_lmfit(np.array(data, dtype=float), params, B=B, dojac=True)
     finally:
         fitting.lmfit.minimize = real
+    box['kw']['__params__'] = box.get('params')
     return box['r'], box['kw']
 
 
@@ -987,8 +989,20 @@ def corr_residual(ctx):
             ctx.fail('corr', small, f"do_lmfit.residual {list(map(float, r))[:6]}… vs model {mr[:6]}… (len {len(r)} vs {w[0]})",
                      dict(site='do_lmfit.residual', what='values'))
         # lmfit is handed the analytic Jacobian and the mask coordinates as x (rows) / y (columns)
-        if kw.get('Dfun') is not fitting.lmfit_jacobian:
-            ctx.fail('corr', small, "do_lmfit(dojac=True) does not pass lmfit_jacobian as Dfun", dict(site='do_lmfit', what='Dfun'))
+        # (judged by behaviour, not identity: a wrapper that returns the same matrix is fine — the first version of
+        #  this check demanded `Dfun is fitting.lmfit_jacobian` and raised a false alarm when fix 207d62e wrapped it)
+        dfun, pp = kw.get('Dfun'), kw.get('__params__')
+        dfun_ok = callable(dfun)
+        if dfun_ok and pp is not None:
+            try:
+                a = np.asarray(dfun(pp, **kw.get('kws', {})), dtype=float)
+                b = np.asarray(fitting.lmfit_jacobian(pp, **kw.get('kws', {})), dtype=float)
+                dfun_ok = a.shape == b.shape and np.array_equal(a, b, equal_nan=True)
+            except Exception:
+                dfun_ok = False
+        if not dfun_ok:
+            ctx.fail('corr', small, "do_lmfit(dojac=True) does not hand lmfit the analytic Jacobian (Dfun differs from lmfit_jacobian "
+                     "on a canonically built Parameters object)", dict(site='do_lmfit', what='Dfun'))
         mk = np.where(np.isfinite(c['data']))
         if not (np.array_equal(kw['kws']['x'], mk[0]) and np.array_equal(kw['kws']['y'], mk[1])):
             ctx.fail('corr', small, "do_lmfit passes different pixel coordinates to the Jacobian than to the model",
